@@ -351,3 +351,9 @@ TEXT["C01"].update(
     level=TEXT["C01"]["level"] + " The identity itself (Verus, unit dhcpgetters, real bodies): DhcpOptions::get_clientid is Some exactly when option 61 is in the table and returns its octets whatever their number; Dhcp::get_client_id == those octets, else chaddr (the contract client_id_of assumed by unit dhcphandlers).")
 TEXT["C13"].update(
     level=TEXT["C13"]["level"] + " Which option each accessor reads (Verus, unit dhcpgetters, real bodies): get_serverid = option 54, get_address_request = 50, get_messagetype = 53, get_clientid = 61 -- the accessor contracts unit dhcphandlers assumes.")
+TEXT["C14"].update(
+    engine="verus+kani+bounded",
+    level=TEXT["C14"]["level"] + " BOUNDED stand-in for the whole-message round trip (engine B, real serialise + real get_dns): 20 structured messages -- 1..1000 records of 8 kinds (A, NS, CNAME, PTR, MX, SOA, opaque data of 0/1/255/4000 octets) in all three sections, owner and embedded names sharing suffixes at every depth, with and without EDNS options, larger than 16 KiB, exactly 65534 and 65535 octets: decode(serialise(m)) exists, has m's id, question and records, and decode(serialise(.)) of it is itself.")
+TEXT["C04"].update(
+    engine="verus+bounded",
+    level=TEXT["C04"]["level"] + " Bounded, body-independent (engine B, real serialise_with_size + real decoder): 14 structured messages x limits 512, 513, 600, 1232, 4096, full-1, full, full+1, 65535 (138 cases): never longer than the limit, decodes, keeps leading whole records section by section, TC exactly when a record is missing, nothing missing when the full encoding fits.")
